@@ -215,3 +215,11 @@ mod test {
         }
     }
 }
+
+/// The private varint kernels, re-exported for the out-of-tree verification harnesses.
+#[cfg(feature = "verif-hooks")]
+pub mod verif_exports {
+    pub use super::varint::{space_needed, ReadVarInt, WriteVarInt};
+    pub const SCHEDULE_MAGIC_V2: u8 = super::SCHEDULE_MAGIC_V2;
+    pub const LINE_WIDTH: usize = super::LINE_WIDTH;
+}
